@@ -460,4 +460,236 @@ Proof.
   eapply (step_call_builtin ob _ lp i bc tail b2 r m2 v' h'); try eassumption.
 Qed.
 
+
+(* ============================================================ (b) invoking k = returning from the receiver *)
+(* [mr] is inside the frame that CALL + ENTER built for the receiver on the captured state:
+   %bp points at the argument k, the four frame slots hold Argc 1, the saved %ep, the return
+   address (the instruction after the call/cc site) and the saved %bp, and the stack below
+   the receiver is as it was at the capture.  ENTER establishes it ([enter_in_cc_frame]) and
+   code that respects its frame ([frame] of CompileCorrect.v) keeps it
+   ([in_cc_frame_preserved]). *)
+Record in_cc_frame (m : vm) (lp i : N) (mr : vm) : Prop := {
+  cf_bp : bp mr = sp m - 1;
+  cf_argc : sget mr (sp m) = VArgc 1;
+  cf_ep : sget mr (sp m + 1) = VEp (ep m);
+  cf_ip : sget mr (sp m + 2) = VIp lp (i + 1);
+  cf_bpv : sget mr (sp m + 3) = VBp (bp m);
+  cf_below : forall j, j <= sp m - 2 -> sget mr j = sget m j;
+  cf_cap : sp m + 3 < scap mr
+}.
+
+(* the frame of the called state *)
+Lemma called_slots_gen (sc m : vm) lp i lamp kp :
+  2 <= sp m -> sp sc = sp m -> scap sc = scap m -> sp m < scap m ->
+  sget sc (sp m) = VArgc 1 -> sget sc (sp m - 1) = VPtr kp ->
+  (forall j, j <> sp m -> j <> sp m - 1 -> sget sc j = sget m j) ->
+  bp sc = bp m -> ep sc = ep m ->
+  let c := called sc lp i lamp in
+  sp c = sp m + 2 /\ bp c = bp m /\ ep c = ep m /\ ip c = (lamp, 0) /\ acc c = acc sc /\
+  sget c (sp m + 2) = VIp lp (i + 1) /\ sget c (sp m + 1) = VEp (ep m) /\ sget c (sp m) = VArgc 1 /\
+  sget c (sp m - 1) = VPtr kp /\
+  (forall j, j <= sp m - 2 -> sget c j = sget m j) /\
+  hp c = hp sc /\ st c = st sc /\ scap m <= scap c.
+Proof.
+  intros Hsp Hsp' Hcap' Hcap Hargc' Harg' Hoth Hbp' Hep' c.
+  set (c1 := pushed (with_ip sc (lp, i + 1)) (VEp (ep sc))).
+  assert (Hsp1 : sp c1 = sp m + 1) by (unfold c1, pushed; cbn [sp with_scap with_stack with_ip]; lia).
+  assert (Hc2 : c = with_ip (pushed c1 (VIp lp (i + 1))) (lamp, 0)) by reflexivity.
+  assert (G : forall j, sget c j = sget (pushed c1 (VIp lp (i + 1))) j) by reflexivity.
+  assert (G1 : forall j, j <> sp m + 1 -> sget c1 j = sget sc j).
+  { intros j Hj. unfold c1. rewrite sget_pushed_other by (cbn [sp with_ip]; lia). reflexivity. }
+  split; [rewrite Hc2; unfold pushed; cbn [sp with_scap with_stack with_ip]; lia|].
+  split; [exact Hbp'|]. split; [exact Hep'|]. split; [reflexivity|]. split; [reflexivity|].
+  split; [rewrite G; replace (sp m + 2) with (sp c1 + 1) by lia; apply sget_pushed_top|].
+  split.
+  { rewrite G, sget_pushed_other by lia. unfold c1.
+    replace (sp m + 1) with (sp (with_ip sc (lp, i + 1)) + 1) by (cbn [sp with_ip]; lia).
+    rewrite sget_pushed_top. rewrite Hep'. reflexivity. }
+  split; [rewrite G, sget_pushed_other by lia; rewrite G1 by lia; exact Hargc'|].
+  split; [rewrite G, sget_pushed_other by lia; rewrite G1 by lia; exact Harg'|].
+  split.
+  { intros j Hj. rewrite G, sget_pushed_other by lia. rewrite G1 by lia. apply Hoth; lia. }
+  split; [reflexivity|]. split; [reflexivity|].
+  rewrite Hc2. unfold pushed. cbn [scap with_scap with_stack with_ip].
+  unfold c1, pushed. cbn [scap sp with_scap with_stack with_ip].
+  repeat match goal with |- context [if ?a <? ?b then _ else _] => destruct (N.ltb_spec a b) end; lia.
+Qed.
+
+Lemma called_slots m lp i bc fp pv lamp : at_callcc m lp i bc false fp pv ->
+  heap_inv (hp m) -> allocated (hp m) fp ->
+  let c := called (s_cap m lp i fp) lp i lamp in
+  sp c = sp m + 2 /\ bp c = bp m /\ ep c = ep m /\ ip c = (lamp, 0) /\ acc c = VPtr fp /\
+  sget c (sp m + 2) = VIp lp (i + 1) /\ sget c (sp m + 1) = VEp (ep m) /\ sget c (sp m) = VArgc 1 /\
+  (exists kp, sget c (sp m - 1) = VPtr kp /\ cell_at (hp c) kp = VCont (next_id (st m))) /\
+  (forall j, j <= sp m - 2 -> sget c j = sget m j) /\
+  hp c = hp (s_cap m lp i fp) /\ st c = st (s_cap m lp i fp) /\ scap m <= scap c.
+Proof.
+  intros H HI A.
+  destruct (s_cap_spec _ _ _ _ _ _ _ H HI A) as (kp & _ & Ckp & _ & _ & _ & _ & _ & _ & _ & _ & _ & _ &
+    Hip & Hc & Hacc & Hg & Hsp' & Hcap' & Hargc' & Harg' & Hoth & Hbp' & Hep' & _).
+  destruct H as [_ _ _ _ _ Hsp Hcap _ _ _].
+  rewrite Hsp' in Hargc', Harg'.
+  pose proof (called_slots_gen (s_cap m lp i fp) m lp i lamp kp Hsp Hsp' Hcap' Hcap Hargc' Harg' Hoth Hbp' Hep')
+    as G.
+  cbv zeta in G |- *.
+  destruct G as (G1 & G2 & G3 & G4 & G5 & G6 & G7 & G8 & G9 & G10 & G11 & G12 & G13).
+  split; [exact G1|]. split; [exact G2|]. split; [exact G3|]. split; [exact G4|].
+  split; [rewrite G5; exact Hacc|]. split; [exact G6|]. split; [exact G7|]. split; [exact G8|].
+  split; [exists kp; split; [exact G9|rewrite G11; exact Ckp]|].
+  split; [exact G10|]. split; [exact G11|]. split; [exact G12|exact G13].
+Qed.
+
+(* what ENTER leaves (the shape of the conclusions of FrameSteps.step_enter_closure and
+   CompileCorrect.step_enter_top) is that frame *)
+Lemma enter_in_cc_frame m lp i bc fp pv lamp m' : at_callcc m lp i bc false fp pv ->
+  heap_inv (hp m) -> allocated (hp m) fp ->
+  let c := called (s_cap m lp i fp) lp i lamp in
+  bp m' = sp c - 3 -> sget m' (sp c + 1) = VBp (bp c) ->
+  (forall j, j <> sp c + 1 -> sget m' j = sget c j) -> sp c + 1 < scap m' ->
+  in_cc_frame m lp i m'.
+Proof.
+  intros H HI A c Hbp Hnew Hoth Hcap.
+  destruct (called_slots m lp i bc fp pv lamp H HI A)
+    as (Hsp & Hbpc & Hepc & _ & _ & S2 & S1 & S0 & _ & Slow & _).
+  fold c in Hsp, Hbpc, Hepc, S2, S1, S0, Slow.
+  destruct H as [_ _ _ _ _ Hsp2 _ _ _ _].
+  rewrite Hsp in *. constructor.
+  - rewrite Hbp. lia.
+  - rewrite Hoth by lia. exact S0.
+  - rewrite Hoth by lia. exact S1.
+  - rewrite Hoth by lia. exact S2.
+  - replace (sp m + 3) with (sp m + 2 + 1) by lia. rewrite Hnew, Hbpc. reflexivity.
+  - intros j Hj. rewrite Hoth by lia. apply Slow. exact Hj.
+  - lia.
+Qed.
+
+Lemma in_cc_frame_preserved m lp i a b : in_cc_frame m lp i a -> sp m + 3 <= sp a ->
+  frame a b -> sp b < scap b -> in_cc_frame m lp i b.
+Proof.
+  intros [F1 F2 F3 F4 F5 F6 F7] Hsp [_ Esp Ebp _ _ Est] Hcap. constructor.
+  - rewrite Ebp. exact F1.
+  - rewrite Est by lia. exact F2.
+  - rewrite Est by lia. exact F3.
+  - rewrite Est by lia. exact F4.
+  - rewrite Est by lia. exact F5.
+  - intros j Hj. rewrite Est by lia. apply F6. exact Hj.
+  - lia.
+Qed.
+
+(* the normal return: RET executed in that frame *)
+Definition ret_state (m : vm) (lp i : N) (mr : vm) (lq iq : N) : vm :=
+  with_bp (with_ip (with_ep (with_sp (with_ip mr (lq, iq + 1)) (sp m - 2)) (ep m)) (lp, i + 1)) (bp m).
+
+Lemma step_ret_cc m lp i mr lq iq bq : 2 <= sp m -> in_cc_frame m lp i mr ->
+  code_in mr lq bq -> ip mr = (lq, iq) -> seg bq iq [VOp ORet] ->
+  run_one mr = ROk false (ret_state m lp i mr lq iq).
+Proof.
+  intros Hsp [F1 F2 F3 F4 F5 F6 F7] Hc Hip Hs.
+  rewrite (step_ret_n ob mr lq iq bq 1 (ep m) lp (i + 1) (bp m) Hc Hip Hs).
+  - unfold ret_state. rewrite F1. replace (sp m - 1 - 1) with (sp m - 2) by lia. reflexivity.
+  - rewrite F1. lia.
+  - rewrite F1. lia.
+  - rewrite F1. replace (sp m - 1 + 1) with (sp m) by lia. exact F2.
+  - rewrite F1. replace (sp m - 1 + 2) with (sp m + 1) by lia. exact F3.
+  - rewrite F1. replace (sp m - 1 + 3) with (sp m + 2) by lia. exact F4.
+  - rewrite F1. replace (sp m - 1 + 4) with (sp m + 3) by lia. exact F5.
+Qed.
+
+(* registers and the live part of the stack *)
+Definition same_cont_state (a b : vm) : Prop :=
+  sp a = sp b /\ bp a = bp b /\ ep a = ep b /\ ip a = ip b /\ acc a = acc b /\
+  forall j, j <= sp b -> sget a j = sget b j.
+
+(* THE state equation.  [m]: the machine at the CALL of call/cc; [mr]: the receiver about to
+   return normally (at its RET, in the frame built on the captured state, %acc = v);
+   [s']: ANY later machine — any call depth, any later evaluation, heap / store / globals
+   mutated at will — in which the continuation object is still there and which is about to
+   apply it to v.  Then the state after the invocation and the state after the normal return
+   agree on sp, bp, ep, ip (the instruction after the call/cc site), %acc = v and every stack
+   slot up to sp; heap, Rc payloads, globals, output log and stack capacity of the invoked
+   state are those of s' (mutations since the capture stay visible); and the continuation is
+   still live afterwards (it can be invoked again, from that state or any later one). *)
+Theorem invoke_equals_return m lp i bc fp pv mr lq iq bq s' tail' v :
+  at_callcc m lp i bc false fp pv ->
+  in_cc_frame m lp i mr -> code_in mr lq bq -> ip mr = (lq, iq) -> seg bq iq [VOp ORet] -> acc mr = v ->
+  klive (next_id (st m)) (k_cap m lp i) s' -> at_invoke s' (next_id (st m)) tail' ->
+  sget s' (sp s' - 1) = v ->
+  exists s_ret s_inv,
+    run_one mr = ROk false s_ret /\ run_one s' = ROk false s_inv /\
+    same_cont_state s_inv s_ret /\
+    sp s_ret = sp m - 2 /\ bp s_ret = bp m /\ ep s_ret = ep m /\ ip s_ret = (lp, i + 1) /\ acc s_ret = v /\
+    (forall j, j <= sp m - 2 -> sget s_ret j = sget m j) /\
+    hp s_inv = hp s' /\ st s_inv = st s' /\ g_bind s_inv = g_bind s' /\ g_slots s_inv = g_slots s' /\
+    out_log s_inv = out_log s' /\ scap s_inv = scap s' /\
+    klive (next_id (st m)) (k_cap m lp i) s_inv.
+Proof.
+  intros H F Hc Hip Hs Hv KL AI Hv'.
+  assert (Hsp : 2 <= sp m) by (destruct H; assumption).
+  exists (ret_state m lp i mr lq iq), (inv_state s' (k_cap m lp i)).
+  split; [apply (step_ret_cc m lp i mr lq iq bq Hsp F Hc Hip Hs)|].
+  split; [apply (step_invoke s' _ _ tail' AI KL)|].
+  assert (Low : forall j, j <= sp m - 2 -> sget (ret_state m lp i mr lq iq) j = sget m j).
+  { intros j Hj. change (sget (ret_state m lp i mr lq iq) j) with (sget mr j). apply (cf_below _ _ _ _ F). exact Hj. }
+  split.
+  { unfold same_cont_state.
+    split; [reflexivity|]. split; [reflexivity|]. split; [reflexivity|]. split; [reflexivity|].
+    split; [change (sget s' (sp s' - 1) = acc mr); congruence|].
+    intros j Hj. change (sp (ret_state m lp i mr lq iq)) with (sp m - 2) in Hj.
+    rewrite Low by exact Hj.
+    rewrite inv_state_slot by (unfold k_cap; rewrite cc_cont_len; cbn [sp with_ip]; lia).
+    unfold k_cap. rewrite cc_cont_slot by (cbn [sp with_ip]; assumption). reflexivity. }
+  split; [reflexivity|]. split; [reflexivity|]. split; [reflexivity|]. split; [reflexivity|].
+  split; [exact Hv|]. split; [exact Low|].
+  do 6 (split; [reflexivity|]). apply klive_inv_state. exact KL.
+Qed.
+
+(* the captured state itself has the continuation live; so has every kext-extension *)
+Lemma klive_s_cap m lp i bc tail fp pv : at_callcc m lp i bc tail fp pv ->
+  heap_inv (hp m) -> allocated (hp m) fp ->
+  klive (next_id (st m)) (k_cap m lp i) (s_cap m lp i fp) /\
+  next_id (st m) < next_id (st (s_cap m lp i fp)).
+Proof.
+  intros H HI A.
+  destruct (s_cap_spec _ _ _ _ _ _ _ H HI A) as (kp & _ & _ & _ & Hk & Hn & _ & _ & _ & _ & _ & Hl & _ &
+    _ & _ & _ & _ & _ & Hcap' & _).
+  destruct H as [_ _ _ _ _ Hsp Hcap _ _ _].
+  split; [split; [exact Hk|rewrite Hl, Hcap'; lia]|rewrite Hn; lia].
+Qed.
+
+(* ============================================================ (c) an escape discards the frames above *)
+(* whatever the depth of the invoking state: sp, bp and the stack up to sp are those of the
+   capture (= those after the normal return, by invoke_equals_return) *)
+Theorem escape_discards m lp i bc tail fp pv s' tail' :
+  at_callcc m lp i bc tail fp pv ->
+  klive (next_id (st m)) (k_cap m lp i) s' -> at_invoke s' (next_id (st m)) tail' ->
+  exists s_inv, run_one s' = ROk false s_inv /\
+    sp s_inv = sp m - 2 /\ bp s_inv = bp m /\ ep s_inv = ep m /\ ip s_inv = (lp, i + 1) /\
+    (forall j, j <= sp m - 2 -> sget s_inv j = sget m j) /\
+    (forall j, sp m - 2 < j -> sget s_inv j = sget s' j).
+Proof.
+  intros H KL AI. assert (Hsp : 2 <= sp m) by (destruct H; assumption).
+  exists (inv_state s' (k_cap m lp i)).
+  split; [apply (step_invoke s' _ _ tail' AI KL)|].
+  do 4 (split; [reflexivity|]). split.
+  - intros j Hj. rewrite inv_state_slot by (unfold k_cap; rewrite cc_cont_len; cbn [sp with_ip]; lia).
+    unfold k_cap. rewrite cc_cont_slot by (cbn [sp with_ip]; assumption). reflexivity.
+  - intros j Hj. apply inv_state_slot_above. unfold k_cap. rewrite cc_cont_len. cbn [sp with_ip]. lia.
+Qed.
+
+(* two invocations from states of different depth land in the same registers and stack *)
+Corollary escape_depth_independent m lp i bc tail fp pv s1 s2 t1 t2 :
+  at_callcc m lp i bc tail fp pv ->
+  klive (next_id (st m)) (k_cap m lp i) s1 -> at_invoke s1 (next_id (st m)) t1 ->
+  klive (next_id (st m)) (k_cap m lp i) s2 -> at_invoke s2 (next_id (st m)) t2 ->
+  exists r1 r2, run_one s1 = ROk false r1 /\ run_one s2 = ROk false r2 /\
+    sp r1 = sp r2 /\ bp r1 = bp r2 /\ ep r1 = ep r2 /\ ip r1 = ip r2 /\
+    forall j, j <= sp r2 -> sget r1 j = sget r2 j.
+Proof.
+  intros H K1 A1 K2 A2.
+  destruct (escape_discards _ _ _ _ _ _ _ s1 t1 H K1 A1) as (r1 & E1 & P1 & B1 & X1 & I1 & L1 & _).
+  destruct (escape_discards _ _ _ _ _ _ _ s2 t2 H K2 A2) as (r2 & E2 & P2 & B2 & X2 & I2 & L2 & _).
+  exists r1, r2. repeat (split; [congruence|]).
+  intros j Hj. rewrite L1, L2 by lia. reflexivity.
+Qed.
+
 End Cont.
